@@ -41,9 +41,45 @@ package client
 //@ structural C10: refs congestion.UseBBR in nowhere
 //@ structural C10: calls (*Conn).SetCongestionControl in nowhere
 
-//@ func (*clientImpl).connect
-//@   props C10
+// Error classification (C16): "a recoverable error such as a stream limit does not trigger a
+// reconnect". quic-go's OpenStream reports the stream limit as a *quic.StreamLimitReachedError
+// (a pointer: streams_map_outgoing.go); such an error must come back as it is, not wrapped as a
+// closed-connection error (which is what makes the reconnecting client drop the connection).
+//@ func wrapIfConnectionClosed
+//@   props C16
+//@   ensures tagof(err) == typetag("*quic.StreamLimitReachedError") ==> ret == err
+
+// The transport socket (C16). A socket obtained from the connection factory is private to the
+// connect invocation (cPriv, cPrivOpen) until connect succeeds: a failed connect has closed it.
+// Closing a client closes its transport and its socket whatever state the connection is in.
+//@ ghost var cPriv Int
+//@ ghost var cPrivOpen Bool
+//@ ghost var sockClosed (Array Int Bool)
+//@ ghost var trClosed (Array Int Bool)
+//@ hook call ConnFactory.New(f, a) in (*clientImpl).connect
+//@   update cPrivOpen = false
+//@ hook after call ConnFactory.New(f, a) (pc, err) in (*clientImpl).connect
+//@   when isnil(err)
+//@   update cPriv = payload(pc)
+//@   update cPrivOpen = true
+//@ hook call net.PacketConn.Close(pc) in (*clientImpl).connect
+//@   update cPrivOpen = cPrivOpen && payload(pc) != cPriv
+//@ hook call net.PacketConn.Close(pc) in (*clientImpl).Close
+//@   update sockClosed = upd(sockClosed, payload(pc), true)
+//@ hook call (*Transport).Close(t) in (*clientImpl).Close
+//@   update trClosed = upd(trClosed, t, true)
+//@ func (*clientImpl).Close
+//@   props C16
 //@   nonil
+//@   requires c.conn != nil && c.tr != nil && !isnil(c.pktConn)
+//@   ensures selBool(sockClosed, payload(c.pktConn)) && selBool(trClosed, c.tr)
+//@   modifies sockClosed, trClosed
+
+//@ func (*clientImpl).connect
+//@   props C10 C16
+//@   nonil
+//@   ensures !isnil(ret1) ==> !cPrivOpen
+//@   ensures isnil(ret1) ==> cPrivOpen && payload(c.pktConn) == cPriv && c.tr != nil
 //@   ensures isnil(ret1) ==> ret0 != nil && ret0.Tx == ite(respRxAuto, 0, clientTx(respRx, c.config.BandwidthConfig.MaxTx)) && ret0.UDPEnabled == respUDP
 //@   ensures isnil(ret1) ==> cBrutalCalls + cConfiguredCalls == old(cBrutalCalls) + old(cConfiguredCalls) + 1
 //@   ensures isnil(ret1) ==> (cBrutalCalls == old(cBrutalCalls) + 1) == (!respRxAuto && clientTx(respRx, c.config.BandwidthConfig.MaxTx) > 0)
